@@ -114,6 +114,21 @@ func c14Case(env *Env, tape *sim.Tape) *CaseOut {
 	stick := []int{0, 1, 9}[tape.Draw(3)]
 	truncOn := tape.Draw(4) == 3
 	truncRaw := tape.Draw(1 << 30)
+	// one case in 1024 goes through an external-command minifier (AddCmd), fed through stdin /
+	// stdout or through the $in / $out temporary files; a real process is spawned, so these
+	// cases use the plain call only (no bubble) and are kept rare
+	cmdRaw := tape.Draw(4096)
+	if cmdRaw%1024 == 1023 && os.Getenv("VERIF_NO_CMD") == "" {
+		doc = corpus.Doc{MT: []string{MTCmd, MTCmdIn, MTCmdOut, MTCmdFile}[cmdRaw/1024], Name: "builtin/cmd", Src: "builtin",
+			Data: []byte("an external command copies these bytes, all of them, to its output")[:1+truncRaw%64]}
+		di = len(env.Corpus) + cmdRaw/1024
+		embed, truncOn = 0, false
+		if entry != EMatch {
+			entry = EPlain
+		}
+		out.stat("probe_external_command_minifier", 1)
+	}
+	isCmd := strings.HasPrefix(doc.MT, MTCmd)
 
 	// truncated documents are inputs too (the stream ended early): the fault positions of a
 	// truncated document are a different set of error paths
@@ -130,7 +145,11 @@ func c14Case(env *Env, tape *sim.Tape) *CaseOut {
 			embed = 0
 		}
 	}
-	ref := c14Reference(mt, data, fmt.Sprintf("%d/%d/%d", di, embed, trunc))
+	refKey := fmt.Sprintf("%d/%d/%d", di, embed, trunc)
+	if isCmd {
+		refKey += fmt.Sprintf("/cmd%d", len(data))
+	}
+	ref := c14Reference(mt, data, refKey)
 	R := len(data)
 	kw, kr := -1, -1
 	if fk == fkWrite || fk == fkWriteShort || fk == fkBoth {
@@ -176,8 +195,28 @@ func c14Case(env *Env, tape *sim.Tape) *CaseOut {
 	op.R = sim.NewSimReader(nil, data)
 	op.R.EOFWithData = eofWithData
 	op.R.Chunks = drawChunks(tape, R, 16)
+	// which error value the failing writer returns: mostly an opaque one; sometimes one of
+	// the sentinels a real sink hands out (an ssh channel or a pipe whose reader was closed
+	// with io.EOF returns the bare io.EOF from Write) - for a WRITER none of them means
+	// "done", every one is a failure that has to surface
+	writeErr := sim.ErrInjectedWrite
 	if kw >= 0 {
-		op.W.FailAt, op.W.FailErr, op.W.Short = kw, sim.ErrInjectedWrite, fk == fkWriteShort
+		switch kwRaw / 7 % 12 {
+		case 7:
+			writeErr = io.EOF
+		case 8:
+			writeErr = sim.ErrInjectedWriteEOF
+		case 9:
+			writeErr = io.ErrUnexpectedEOF
+		case 10:
+			writeErr = io.ErrShortWrite
+		case 11:
+			writeErr = io.ErrClosedPipe
+		}
+		if writeErr != sim.ErrInjectedWrite {
+			out.stat("probe_writer_error_is_a_std_sentinel", 1)
+		}
+		op.W.FailAt, op.W.FailErr, op.W.Short = kw, writeErr, fk == fkWriteShort
 	}
 	readErr := sim.ErrInjectedRead
 	if kr >= 0 {
@@ -322,9 +361,11 @@ func c14Case(env *Env, tape *sim.Tape) *CaseOut {
 	if entry == EReader && op.GotEOF {
 		return fail("error-swallowed", "reader wrapper: consumer got a clean io.EOF although the underlying reader failed")
 	}
-	if ref.Err == nil {
+	if ref.Err == nil && !isCmd {
+		// (for an external command any non-nil error will do: a writer that fails makes the
+		// child die of SIGPIPE, and os/exec reports the exit status before the copy error)
 		ok := false
-		if op.W.Fired && op.sawErr(sim.ErrInjectedWrite) {
+		if op.W.Fired && op.sawErr(writeErr) {
 			ok = true
 		}
 		if op.R.Fired && op.sawErr(readErr) {
@@ -359,7 +400,7 @@ func c14Search(s *Search) {
 	truncOn, truncPos := uint64(0), uint64(0)
 	run := func(di, embed, entry, fk, kw, kr, useBytes, eof, stick uint64, rest ...uint64) *CaseOut {
 		idx++
-		vals := append([]uint64{di, embed, entry, fk, kw, kr, useBytes, eof, stick, truncOn, truncPos}, rest...)
+		vals := append([]uint64{di, embed, entry, fk, kw, kr, useBytes, eof, stick, truncOn, truncPos, 0}, rest...)
 		return s.Try(idx, sim.ReplayTape(vals))
 	}
 	entryIdx := func(e int) uint64 {
